@@ -23,23 +23,51 @@ pub enum Obj {
     Pbd(physis::pbd::PreBoneDeformer),
 }
 
+/// an input buffer placed `skew` bytes into its allocation, so that the library is also handed buffers at odd addresses
+/// (a `Vec` is 16-byte aligned; a caller's slice into a larger buffer is not)
+pub struct Loaded {
+    v: Vec<u8>,
+    skew: usize,
+}
+
+impl PartialEq<Loaded> for Vec<u8> {
+    fn eq(&self, other: &Loaded) -> bool {
+        self.as_slice() == &other.v[other.skew..]
+    }
+}
+
+impl std::ops::Deref for Loaded {
+    type Target = [u8];
+    fn deref(&self) -> &[u8] {
+        &self.v[self.skew..]
+    }
+}
+
 pub struct Ctx {
     pub handles: HashMap<u32, Obj>,
     next: u32,
-    inputs: Vec<Rc<Vec<u8>>>,
+    /// address skew of the input buffers of the current command (verb suffix `@k`)
+    pub skew: usize,
+    inputs: Vec<Rc<Loaded>>,
     pub api_peak: Option<isize>,
     pub api_maxreq: Option<usize>,
 }
 
 impl Ctx {
     pub fn new() -> Ctx {
-        Ctx { handles: HashMap::new(), next: 1, inputs: vec![], api_peak: None, api_maxreq: None }
+        Ctx { handles: HashMap::new(), next: 1, skew: 0, inputs: vec![], api_peak: None, api_maxreq: None }
     }
     /// read an input file without counting its buffer
-    pub fn load(&mut self, path: &str) -> Option<Rc<Vec<u8>>> {
+    pub fn load(&mut self, path: &str) -> Option<Rc<Loaded>> {
         let _g = mon::Excl::new();
-        let v = std::fs::read(path).ok()?;
-        let r = Rc::new(v);
+        let mut v = std::fs::read(path).ok()?;
+        if self.skew > 0 {
+            let mut w = Vec::with_capacity(v.len() + self.skew);
+            w.resize(self.skew, 0xA5);
+            w.append(&mut v);
+            v = w;
+        }
+        let r = Rc::new(Loaded { v, skew: self.skew });
         self.inputs.push(r.clone());
         Some(r)
     }
@@ -431,11 +459,16 @@ fn bf_batch(ctx: &mut Ctx, a: &[String]) -> Out {
     let Some(buf) = ctx.load(&a[0]) else { return Out::usage("input") };
     let mut out = String::new();
     let mut n = 0usize;
+    // a key field of "=" keeps using the object created for the previous line (several messages through one object)
+    let mut cur: Option<physis::blowfish::Blowfish> = None;
     for l in lines_of(&buf) {
         let mut it = l.split(' ');
-        let k = unhex(it.next().unwrap_or(""));
+        let kf = it.next().unwrap_or("");
         let m = unhex(it.next().unwrap_or(""));
-        let b = physis::blowfish::Blowfish::new(&k);
+        if kf != "=" || cur.is_none() {
+            cur = Some(physis::blowfish::Blowfish::new(&unhex(kf)));
+        }
+        let b = cur.as_ref().unwrap();
         let e = b.encrypt(&m);
         let d = e.as_ref().and_then(|e| b.decrypt(e));
         out.push_str(&format!(
